@@ -173,6 +173,13 @@ func genSession14(c *Chooser) Session {
 	if c.Chance(1, 10) {
 		b = a.clone() // equal inputs: exit status 0
 	}
+	if iv.arrays != "list" && c.Chance(1, 5) {
+		// the same document with its arrays reordered: no difference under the flags
+		b = shuffleArrays(c, a, iv.arrays == "set")
+		if c.Chance(1, 2) {
+			b = edit(c, g, b)
+		}
+	}
 	if iv.precision != 0 && c.Chance(2, 3) {
 		b = perturb(c, a, iv.precision) // differences around the tolerance
 	}
